@@ -135,7 +135,13 @@ func registerMsgp() {
 		return appendNative(args[0], msgp.AppendString(nil, args[1].(string)))
 	}
 	ext[M+"AppendBytes"] = func(fr *frame, args []value) value {
-		return appendNative(args[0], msgp.AppendBytes(nil, concretePrefix(args[1].([]value))))
+		payload, _ := args[1].([]value)
+		if len(concretePrefix(payload)) != len(payload) {
+			// a byte string that itself carries symbolic cells travels as one cell
+			b, _ := args[0].([]value)
+			return append(b, binCell{append([]value{}, payload...)})
+		}
+		return appendNative(args[0], msgp.AppendBytes(nil, concretePrefix(payload)))
 	}
 	ext[M+"AppendNil"] = func(fr *frame, args []value) value { return appendNative(args[0], msgp.AppendNil(nil)) }
 	appInt := func(fr *frame, args []value) value {
@@ -192,6 +198,11 @@ func registerMsgp() {
 		return msgpRead(fr, args[0], "str", "", func(b []byte) (interface{}, []byte, error) { return rd3(msgp.ReadStringBytes(b)) }, func(v interface{}) value { return v.(string) })
 	}
 	ext[M+"ReadBytesBytes"] = func(fr *frame, args []value) value {
+		if s, _ := args[0].([]value); len(s) > 0 {
+			if bc, ok := s[0].(binCell); ok {
+				return tuple{append([]value{}, bc.cells...), s[1:], iface{}}
+			}
+		}
 		return msgpRead(fr, args[0], "bin", []value(nil), func(b []byte) (interface{}, []byte, error) { return rd3(msgp.ReadBytesBytes(b, nil)) }, func(v interface{}) value { return bytesToValues(v.([]byte)) })
 	}
 	rdInt := func(name string, z value) {
@@ -264,6 +275,9 @@ func registerMsgp() {
 
 type timeCell struct{ t structure }
 
+// binCell is a msgpack bin object whose content carries symbolic cells.
+type binCell struct{ cells []value }
+
 func rd3[T any](v T, rest []byte, err error) (interface{}, []byte, error) { return v, rest, err }
 
 // msgpSkip returns the number of cells of the first msgpack object in s (tokens count 1).
@@ -272,7 +286,7 @@ func msgpSkip(s []value) (int, error) {
 		return 0, fmt.Errorf("msgp: too few bytes left to read object")
 	}
 	switch s[0].(type) {
-	case tok, timeCell:
+	case tok, timeCell, binCell:
 		return 1, nil
 	}
 	lead, ok := s[0].(uint8)
